@@ -102,6 +102,46 @@ theorem solveT_cells_frame_no_offset (W : C → Prop) (w : World σ) (h0 : o.off
   · intro u k h; rw [heval u k c hc]; exact h
   · intro u k h; rw [hafter]; exact h
 
+/-! ### The frame of a parser-built model, with nothing assumed about its passes -/
+
+/-- A parser-built model as an interpretation: its evaluation pass is `runPass` of the generated statements (the same
+    statements at every pass), its hooks are `pass`, the offset copy writes the endogenous cells of period `t`. -/
+def generated (S : Cells σ C X) (stmts : List (Assign σ C X)) (endoCell : List (Int → C))
+    (copy : σ → Int → Int → σ) (lags leads : Nat) (check : σ → Int → V) (allFinite : V → Bool)
+    (close : V → V → Bool) (zeroNF : V → V) : Interp σ V where
+  lags := lags
+  leads := leads
+  check := check
+  allFinite := allFinite
+  close := close
+  zeroNF := zeroNF
+  copyOffset := copy
+  before _ u _ := (u, false)
+  eval _ u t _ := runPass S t stmts u
+  after _ u _ _ := (u, false)
+
+/-- **Period frame of a generated model** (no assumption about what a pass writes: it follows from the statements).
+    After `solve_t(t, …)` — whatever its outcome — every cell that is neither the target `(lhs_i, t + k_i)` of one of
+    the model's statements nor an endogenous cell of period `t` (touched only when `offset ≠ 0`) holds what it held. -/
+theorem generated_model_frame (stmts : List (Assign σ C X)) (endoCell : List (Int → C))
+    (copy : σ → Int → Int → σ) (lags leads : Nat) (check : σ → Int → V) (allFinite : V → Bool)
+    (close : V → V → Bool) (zeroNF : V → V)
+    (hcopy : ∀ u c, (∀ e ∈ endoCell, e t ≠ c) → S.get (copy u t o.offset) c = S.get u c)
+    (w : World σ) (c : C)
+    (hstmt : ∀ a ∈ stmts, a.target t ≠ c) (hendo : o.offset ≠ 0 → ∀ e ∈ endoCell, e t ≠ c) :
+    S.get (solveT (generated S stmts endoCell copy lags leads check allFinite close zeroNF) o n t w).1.user c
+      = S.get w.user c := by
+  apply solveT_inv _ o t (fun u => S.get u c = S.get w.user c) _ n w rfl
+  constructor
+  · intro hoff u h
+    show S.get (copy u t o.offset) c = _
+    rw [hcopy u c (hendo hoff)]; exact h
+  · intro u h; exact h
+  · intro u k h
+    show S.get (runPass S t stmts u).1 c = _
+    rw [runPass_frame S t stmts u c hstmt]; exact h
+  · intro u k h; exact h
+
 /-- `status` / `iterations` change at most at `t` (restated from the shared lemma). -/
 theorem series_frame (w : World σ) (j : Nat) (hj : pyIndex n t ≠ some j) :
     (solveT I o n t w).1.status[j]? = w.status[j]? ∧ (solveT I o n t w).1.iters[j]? = w.iters[j]? :=
@@ -215,6 +255,16 @@ example : funCells.get (runPass funCells 2 ([⟨fun t => t.toNat, fun u _ => som
       [⟨fun t => t.toNat + 1, fun u t => some (u t.toNat * 10)⟩]) (fun _ => 4)).1 3 = 50 :=
   runPass_last funCells 2 [⟨fun t => t.toNat, fun u _ => some (u 0 + 1)⟩]
     ⟨fun t => t.toNat + 1, fun u t => some (u t.toNat * 10)⟩ (fun _ => 4) 50 (by decide) (by decide)
+
+/-- `generated_model_frame` on the two-statement model above, with an offset copy of cell 2 from cell `2 + offset`: for
+    every world and every option set, `solve_t(2, …)` leaves cell 7 alone (targets at t = 2 are cells 2 and 3). -/
+example (o : Opts) (w : World (Nat → Nat)) :
+    funCells.get (solveT (generated (V := Nat) funCells exStmts [fun t => t.toNat]
+        (fun u t off => fun c => if c = t.toNat then u (t + off).toNat else u c) 0 0
+        (fun u t => u t.toNat) (fun _ => true) (fun a b => a == b) id) o 5 2 w).1.user 7 = funCells.get w.user 7 :=
+  generated_model_frame funCells o 5 2 exStmts [fun t => t.toNat] _ 0 0 _ _ _ _
+    (by intro u c h; have : c ≠ 2 := fun e => h _ List.mem_cons_self (by simp [e]); simp [funCells, this])
+    w 7 (exStmts_targets 7 (by decide)) (by intro _ e he; simp at he; subst he; decide)
 
 /-- A model whose evaluation pass IS `runPass` of the two generated statements, with a real offset copy. -/
 private def exIC : Interp (Nat → Nat) Nat where
